@@ -955,3 +955,12 @@ LAWS = [
         "is_perpendicular / is_parallel / is_cocircular / is_collinear / is_coplanar / is_concurrent exact truth values; angle_bisectors", shard=400,
         mandatory=("perp_lines2:collection>=64", "perp_lines3:collection>=64", "cocircular:collection>=64", "bisectors2:collection>=64", "cocircular3", "cocircular1")),
 ]
+
+
+# ------------------------------------------------------------------------------------------- equivalent ways of asking
+from .. import forms as _forms  # noqa: E402
+
+LAWS.append(
+    Law("call_forms", lambda tier: _forms.call_forms_strategy("C10")(tier), _forms.run_call_forms("C10"), lambda c: True, lambda c: [c["entry"], f"d{c['d']}"], {"quick": 500, "thorough": 6000},
+        "the same question asked in several ways (positional / keyword arguments, method / function / operator form, symmetric argument orders) on the objects of the shared pool: same answer", shard=250)
+)
